@@ -58,6 +58,9 @@ type Pool struct {
 	idle   chan *worker
 	n      int
 	MemKB  int // ulimit -v for workers (0 = 4 GB)
+	// Exe overrides the worker executable (default: this binary). Used by C16, whose workers are the
+	// separately built ddpmc16 (same sources, compiled with the map-order/sort overlay).
+	Exe string
 	closed bool
 }
 
@@ -78,6 +81,9 @@ func (p *Pool) start() (*worker, error) {
 	exe, err := os.Executable()
 	if err != nil {
 		return nil, err
+	}
+	if p.Exe != "" {
+		exe = p.Exe
 	}
 	mem := p.MemKB
 	if mem == 0 {
